@@ -45,6 +45,7 @@ MIN_REACH = {
     "harvester_file_checked": {"quick": 40, "thorough": 400},
     "partial_write_states": {"quick": 100, "thorough": 1000},
     "syscall_crash_points": {"quick": 8, "thorough": 50},
+    "recoveries_of_a_crop_of_twelve_batches": {"quick": 10, "thorough": 10},
     "recoveries_that_resowed_through_the_restored_crop_of_a_farmer_with_resources": {"quick": 20, "thorough": 150},
 }
 TIME_BUDGET = {"quick": 500, "thorough": 3400}
@@ -80,6 +81,12 @@ def cases(ctx):
                 yield {"farmer": farmer, "victim": victim, "n": 4, "bs": 1, "shuffle": [True, False, 7][idx % 3],
                        "grown": [2, 3] if victim.startswith("grow") else [], "idx": idx, "depth2": 0, "part": [part, 2]}
             idx += 1
+    # a crop of TWELVE batches (two-digit batch ids) all grown but the second: the grower of that one is killed
+    for farmer, victim in (("raw", "grow_missing"), ("runner", "grow_one"), ("harvester", "grow_missing")):
+        for part in range(2):
+            yield {"farmer": farmer, "victim": victim, "n": 12, "bs": 1, "shuffle": [False, True, 7][idx % 3],
+                   "grown": [1] + list(range(3, 13)), "idx": idx, "depth2": 0, "part": [part, 2], "twelve": True}
+        idx += 1
     # syscall-level cross-check (strace fault injection) of the files that are written below Python (HDF5)
     # or by pandas: the victim runs in a fresh interpreter and is SIGKILLed at the entry of its k-th
     # open/write/pwrite/ftruncate/close/rename/unlink on the data file or its temporary sibling
@@ -557,6 +564,8 @@ def run_case(ctx, case):
             bad.append(("recovery", "killed before %s; documented recovery %s: %s" % (evname, r2[0], r2[1])))
         else:
             ctx.count("recoveries_exact")
+            if case.get("twelve"):
+                ctx.count("recoveries_of_a_crop_of_twelve_batches")
             if r2[1] == "restored-resow":
                 ctx.count("recoveries_that_resowed_through_the_restored_crop_of_a_farmer_with_resources")
         # (2b) workers that were already queued when the sow was killed grow whatever complete batch files they find,
